@@ -29,6 +29,7 @@ def dispatch (line : String) : String :=
   | "c12a" :: args => c12a args
   | "c13" :: args => c13 args
   | "c07" :: args => c07 args
+  | "c07u" :: args => c07u args
   | "c10" :: args => c10 args
   | "c10w" :: args => c10w args
   | "c15g2" :: args => c15g2 args
